@@ -45,6 +45,14 @@ def realise(script: dict, cfgd: dict) -> dict:
     cache._cache_lock = lockctl.CtlLock(ctl)  # noqa: SLF001  (instance attribute, public classes untouched)
     keys = cfgd["keys"]
 
+    def observe() -> dict:
+        # observing must not consume steps of the schedule (the `cache` property of a shared cache takes the lock)
+        ctl.local.observing = True
+        try:
+            return c14.observe(cache, cfgd)
+        finally:
+            ctl.local.observing = False
+
     def proc(p: int, ops: list[dict]) -> None:
         for n, o in enumerate(ops, start=1):
             ctl.op_start(p, n)
@@ -60,7 +68,7 @@ def realise(script: dict, cfgd: dict) -> dict:
                 elif o["op"] == "idiom":
                     present = o["k"] in cache
                     pre = dict(e, op="in", res=1 if present else 0)
-                    pre.update(c14.observe(cache, cfgd))
+                    pre.update(observe())
                     ctl.events.append(pre)
                     if not present:
                         ctl.op_end(None)
@@ -69,7 +77,7 @@ def realise(script: dict, cfgd: dict) -> dict:
                     ctl.point()
                     r = cache.get(o["k"])
                 e["res"] = 0 if r is None else r
-                e.update(c14.observe(cache, cfgd))
+                e.update(observe())
             except Exception as ex:  # noqa: BLE001
                 e["res"] = -1
                 e["exc"] = type(ex).__name__
